@@ -74,7 +74,23 @@ def main():
     recs = []
     if job.get("single"):
         stride, offset = job["single"]
-        cps = interesting()[offset::stride]
+        allcps = interesting()
+        # sample by SHAPE of the decomposition mapping: small classes (e.g. the 11 spacing accents "<compat> 0020 03xx") are taken
+        # completely, large ones strided
+        classes = {}
+        for cp in allcps:
+            raw = unicodedata.decomposition(chr(cp)).split()
+            tag = raw[0] if raw and raw[0].startswith("<") else ""
+            parts = [p for p in raw if not p.startswith("<")]
+            last_listed = bool(parts) and int(parts[-1], 16) in (0x300, 0x301, 0x302, 0x308, 0x30B, 0x303, 0x327, 0x328, 0x304, 0x331, 0x307, 0x323, 0x30A, 0x306, 0x30C)
+            classes.setdefault((tag, len(parts), last_listed, unicodedata.category(chr(cp))), []).append(cp)
+        cps = []
+        for key in sorted(classes):
+            members = classes[key]
+            if len(members) <= 300:
+                cps += members[job.get("proc", 0) % max(1, job.get("procs", 1))::max(1, job.get("procs", 1))]
+            else:
+                cps += members[offset::stride]
         for cp in cps:
             ch = chr(cp)
             recs.append(record(ch))
